@@ -2,6 +2,7 @@ package main
 
 import (
 	"go/ast"
+	"go/constant"
 	"go/token"
 	"go/types"
 	"golang.org/x/tools/go/packages"
@@ -668,6 +669,9 @@ func c14CacheR(c *Ctx, R string) {
 		c14ConcurrencyChain(c)
 		c14DurationUnits(c)
 		c16KeyIsTheText(c, "C14-R3")
+		c14HashIsADigest(c, "C14-R3")
+		c14SliceLifetime(c, "C14-R3")
+		c14AnswersAreNotEdited(c, "C14-R3")
 	}
 	if R == "C14-R3" {
 		cacheExpiryWriters(c, R)
@@ -815,6 +819,59 @@ func c14KeyClockFree(c *Ctx) {
 		}
 		n++
 		via := reaches(m, 0, map[*FuncInfo]bool{})
+		if via == "" {
+			// … nor a field that was filled from the clock when the value was made
+			if st, isStruct := tn.Type().Underlying().(*types.Struct); isStruct {
+				clockFields := map[string]bool{}
+				for _, pkg := range p.ModPkgs() {
+					if pkg.Types != tn.Pkg() {
+						continue
+					}
+					for _, f := range pkg.Syntax {
+						ast.Inspect(f, func(nd ast.Node) bool {
+							readsClock := func(e ast.Expr) bool {
+								r := false
+								ast.Inspect(e, func(m ast.Node) bool {
+									if call, ok := m.(*ast.CallExpr); ok {
+										if fn := Callee(pkg.TypesInfo, call); fn != nil && fn.Pkg() != nil && fn.Pkg().Path() == "time" && (fn.Name() == "Now" || fn.Name() == "Since" || fn.Name() == "Until") {
+											r = true
+										}
+									}
+									return true
+								})
+								return r
+							}
+							switch x := nd.(type) {
+							case *ast.CompositeLit:
+								if pkg.TypesInfo.TypeOf(x) != nil && types.Identical(pkg.TypesInfo.TypeOf(x), tn.Type()) {
+									for _, el := range x.Elts {
+										if kv, ok := el.(*ast.KeyValueExpr); ok {
+											if id, ok := kv.Key.(*ast.Ident); ok && readsClock(kv.Value) {
+												clockFields[id.Name] = true
+											}
+										}
+									}
+								}
+							case *ast.AssignStmt:
+								for i, l := range x.Lhs {
+									if sel, ok := ast.Unparen(l).(*ast.SelectorExpr); ok && i < len(x.Rhs) && fieldOwner(pkg.TypesInfo, sel) == typeQName(tn.Type()) && readsClock(x.Rhs[i]) {
+										clockFields[sel.Sel.Name] = true
+									}
+								}
+							}
+							return true
+						})
+					}
+				}
+				_ = st
+				ast.Inspect(m.Decl.Body, func(nd ast.Node) bool {
+					if sel, ok := nd.(*ast.SelectorExpr); ok && fieldOwner(m.Pkg.TypesInfo, sel) == typeQName(tn.Type()) && clockFields[sel.Sel.Name] {
+						via = "field " + sel.Sel.Name + " is filled from time.Now() when the value is built"
+					}
+					return true
+				})
+			}
+		}
 		c.Check(via == "", "C14-R1", typeQName(tn.Type())+".String:lock key part does not depend on the wall clock", m.Decl.Pos(), "no time.Now on the way",
 			"the text that identifies a range query in the in-flight lock key reads the clock ("+via+"): the same question asked a second later gets another key, so identical slice requests run concurrently and reach the server more than once")
 	}
@@ -1200,4 +1257,192 @@ func c14DurationUnits(c *Ctx) {
 		})
 	}
 	c.Check(n >= 5, "C14-R3", "duration constants enumerated", token.NoPos, itoa(n), "fewer than 5 duration constants found in internal/promapi")
+}
+
+// c14HashIsADigest: the cache keys are made by promapi.hash. It is a streaming
+// digest: one xxhash object, every field written into it followed by a
+// separator, the sum taken at the end. A combination of per-field sums (XOR,
+// +) is not a key: equal fields cancel and the order of the fields is lost, so
+// two different questions — a slice whose start equals its rounded end, say —
+// share a cache entry.
+func c14HashIsADigest(c *Ctx, R string) {
+	fi := c.MustFunc(R, "internal/promapi.hash")
+	if fi == nil {
+		return
+	}
+	info := fi.Pkg.TypesInfo
+	var digest types.Object
+	ast.Inspect(fi.Decl.Body, func(nd ast.Node) bool {
+		if as, ok := nd.(*ast.AssignStmt); ok && len(as.Lhs) == 1 && len(as.Rhs) == 1 {
+			if call, isCall := as.Rhs[0].(*ast.CallExpr); isCall {
+				if fn := Callee(info, call); fn != nil && fn.Pkg() != nil && strings.HasSuffix(fn.Pkg().Path(), "xxhash/v2") && fn.Name() == "New" {
+					digest = objOf(info, as.Lhs[0])
+				}
+			}
+		}
+		return true
+	})
+	writesField, writesSep, sums, combines := false, false, false, ""
+	ast.Inspect(fi.Decl.Body, func(nd ast.Node) bool {
+		switch x := nd.(type) {
+		case *ast.CallExpr:
+			sel, ok := x.Fun.(*ast.SelectorExpr)
+			if !ok || digest == nil || objOf(info, sel.X) != digest {
+				return true
+			}
+			switch sel.Sel.Name {
+			case "WriteString", "Write":
+				if len(x.Args) == 1 {
+					if v, isC := constString(info, x.Args[0]); isC && v != "" {
+						writesSep = true
+					} else {
+						writesField = true
+					}
+				}
+			case "Sum64":
+				sums = true
+			}
+		case *ast.AssignStmt:
+			switch x.Tok {
+			case token.XOR_ASSIGN, token.ADD_ASSIGN, token.OR_ASSIGN, token.AND_ASSIGN, token.MUL_ASSIGN:
+				combines = x.Tok.String()
+			}
+		case *ast.BinaryExpr:
+			if x.Op == token.XOR {
+				combines = "^"
+			}
+		}
+		return true
+	})
+	c.Check(digest != nil && writesField && writesSep && sums && combines == "", R, "hash:one digest over every field and a separator", fi.Decl.Pos(), "xxhash.New, WriteString(field), WriteString(sep), Sum64",
+		"promapi.hash no longer streams every field and a separator into one digest (combination by `"+combines+"`): equal fields cancel and field order is lost, so different questions — other slices, other servers — can share one cache entry and one caller is given the other's answer")
+}
+
+// c14SliceLifetime: the answer for a slice is cached for as long as the slice
+// can still be part of a later identical question: its lifetime is counted from
+// the slice END (plus a positive margin). Counted from the slice start the
+// first slices of a long window get a lifetime at or below zero and are sent
+// again by every repeated question.
+func c14SliceLifetime(c *Ctx, R string) {
+	fi := c.MustFunc(R, "internal/promapi.Prometheus.RangeQuery")
+	if fi == nil {
+		return
+	}
+	info := fi.Pkg.TypesInfo
+	n := 0
+	for _, cl := range compositeLits(info, fi.Decl.Body, "internal/promapi.rangeQuery") {
+		v := litField(cl, "ttl")
+		if v == nil {
+			continue
+		}
+		n++
+		usesEnd, usesStart, margin := false, false, false
+		ast.Inspect(v, func(m ast.Node) bool {
+			switch x := m.(type) {
+			case *ast.SelectorExpr:
+				if fieldOwner(info, x) == "internal/promapi.TimeRange" {
+					switch x.Sel.Name {
+					case "End":
+						usesEnd = true
+					case "Start":
+						usesStart = true
+					}
+				}
+			case *ast.BinaryExpr:
+				if x.Op == token.ADD {
+					for _, side := range []ast.Expr{x.X, x.Y} {
+						if tv, ok := info.Types[side]; ok && tv.Value != nil && constant.Sign(tv.Value) > 0 {
+							margin = true
+						}
+					}
+				}
+			}
+			return true
+		})
+		c.Check(usesEnd && !usesStart && margin, R, "RangeQuery:a slice answer lives from the slice end plus a margin", v.Pos(), exprStr(v),
+			"the cache lifetime of a slice is `"+exprStr(v)+"`: it is not counted from the end of the slice with a positive margin, so slices at the beginning of the window expire at once (or are never stored) and every repeated identical question sends them to the server again")
+	}
+	c.Check(n == 1, R, "RangeQuery:one slice query literal with a lifetime", fi.Decl.Pos(), itoa(n), "expected one rangeQuery literal with a ttl")
+}
+
+// c14AnswersAreNotEdited: what the promapi methods hand out is the object that
+// sits in the query cache; every later caller with the same question gets the
+// same object. Nothing in internal/checks edits such an answer in place:
+// no slices.Compact/Delete/Sort/Reverse/Insert/Replace (or sort.*) on a list
+// that belongs to a promapi result, no store into its elements.
+func c14AnswersAreNotEdited(c *Ctx, R string) {
+	chk := c.P.Pkg("internal/checks")
+	if chk == nil {
+		return
+	}
+	info := chk.TypesInfo
+	fromPromapi := func(e ast.Expr) bool {
+		// some selector on the way down to the root has an owner type in internal/promapi, or the root is one
+		for cur := ast.Unparen(e); cur != nil; {
+			switch x := cur.(type) {
+			case *ast.SelectorExpr:
+				if strings.HasPrefix(fieldOwner(info, x), "internal/promapi.") {
+					return true
+				}
+				cur = ast.Unparen(x.X)
+			case *ast.IndexExpr:
+				cur = ast.Unparen(x.X)
+			case *ast.StarExpr:
+				cur = ast.Unparen(x.X)
+			case *ast.Ident:
+				if t := info.TypeOf(x); t != nil {
+					if n := namedOf(t); n != nil && n.Obj().Pkg() != nil && relPkg(n.Obj().Pkg().Path()) == "internal/promapi" {
+						return true
+					}
+				}
+				cur = nil
+			default:
+				cur = nil
+			}
+		}
+		return false
+	}
+	n, bad := 0, ""
+	badPos := token.NoPos
+	for _, fi := range c.P.AllFuncs() {
+		if fi.Pkg != chk || fi.Decl.Body == nil || c.P.IsTestFile(fi.Decl.Pos()) {
+			continue
+		}
+		ast.Inspect(fi.Decl.Body, func(nd ast.Node) bool {
+			switch x := nd.(type) {
+			case *ast.CallExpr:
+				fn := Callee(info, x)
+				if fn == nil || fn.Pkg() == nil || len(x.Args) == 0 || (fn.Pkg().Path() != "slices" && fn.Pkg().Path() != "sort") {
+					return true
+				}
+				if !fromPromapi(x.Args[0]) {
+					return true
+				}
+				n++
+				switch fn.Name() {
+				case "Delete", "DeleteFunc", "Insert", "Replace", "Sort", "SortFunc", "SortStableFunc", "Reverse", "Compact", "CompactFunc", "Strings", "Slice", "SliceStable", "Stable":
+					bad, badPos = "`"+exprStr(x)+"` in "+shortFuncName(fi.Name), x.Pos()
+				}
+			case *ast.AssignStmt:
+				for _, l := range x.Lhs {
+					if _, isIx := ast.Unparen(l).(*ast.IndexExpr); !isIx {
+						sel, isSel := ast.Unparen(l).(*ast.SelectorExpr)
+						if !isSel {
+							continue
+						}
+						if _, isIx2 := ast.Unparen(sel.X).(*ast.IndexExpr); !isIx2 {
+							continue
+						}
+					}
+					if fromPromapi(l) {
+						n++
+						bad, badPos = "`"+exprStr(l)+" = …` in "+shortFuncName(fi.Name), x.Pos()
+					}
+				}
+			}
+			return true
+		})
+	}
+	c.Check(bad == "", R, "answers handed out by promapi are never edited in place by a check", badPos, itoa(n)+" slice operations on promapi results",
+		bad+" rewrites an answer that also sits in the query cache: every later caller asking the same question gets a different answer than the first one (entries removed, the tail zeroed)")
 }
